@@ -1528,6 +1528,11 @@ class Protocol(utils.EventEmitter):
         logger.debug(color('<<< L2CAP channel close', 'magenta'))
         self.emit(self.EVENT_CLOSE)
 
+        # The responses will never come: release the pending transactions
+        for transaction_result in self.transaction_results:
+            if transaction_result is not None and not transaction_result.done():
+                transaction_result.cancel()
+
     def send_message(self, transaction_label: int, message: Message) -> None:
         logger.debug(
             f'{color(">>> Sending AVDTP message", "magenta")}: '
